@@ -448,9 +448,10 @@ func (q *c08Seq) doJunk(b bpv7.Bundle, data []byte) {
 // ---- generators ----
 
 func (q *c08Seq) newFam(expired bool, total int) *c08Fam {
-	f := &c08Fam{src: 1 + q.r.intn(4), seq: uint64(q.r.intn(3)), lifetime: 3600000}
+	// all expiry times are hours away from the wall clock: no verdict depends on timing
+	f := &c08Fam{src: 1 + q.r.intn(4), seq: uint64(q.r.intn(3)), lifetime: 21600000}
 	if expired {
-		f.ts = uint64(q.nowMs) - 946684800000 - 7200000 - uint64(q.r.intn(100000))
+		f.ts = uint64(q.nowMs) - 946684800000 - 43200000 - uint64(q.r.intn(100000))
 	} else {
 		f.ts = uint64(q.nowMs) - 946684800000 - 60000 - uint64(q.r.intn(100000))
 	}
@@ -500,10 +501,12 @@ func (q *c08Seq) randProps() map[string]interface{} {
 
 func (q *c08Seq) randExp() int64 {
 	if q.r.intn(3) == 0 {
-		return q.nowMs - 1800000 - int64(q.r.intn(100000))
+		return q.nowMs - 10800000 - int64(q.r.intn(100000))
 	}
-	return q.nowMs + 1800000 + int64(q.r.intn(100000))
+	return q.nowMs + 10800000 + int64(q.r.intn(100000))
 }
+
+func (q *c08Seq) futureExp() int64 { return q.nowMs + 10800000 + int64(q.r.intn(100000)) }
 
 func (q *c08Seq) randomOp(reopens *int) {
 	var f *c08Fam
@@ -686,7 +689,7 @@ func c08RunCrash(scratch, sid string, seed uint64, variants []int) []string {
 	for _, fr := range c08Grid(o2, 2) {
 		q.doPush(o2.bundle(fr))
 	}
-	q.doUpdate(o1, true, q.randExp()+7200000, q.randProps())
+	q.doUpdate(o1, true, q.futureExp(), q.randProps())
 	for _, variant := range variants {
 		q.crashScenario(variant)
 	}
@@ -726,12 +729,12 @@ func (q *c08Seq) crashScenario(variant int) {
 	case 5: // kill in Delete before anything happened
 		target = f.bundle(nil)
 		q.doPush(target)
-		q.doUpdate(f, true, q.randExp()+7200000, q.randProps())
+		q.doUpdate(f, true, q.futureExp(), q.randProps())
 		q.crashOp("delete:before-index", 1, "delete", target)
 	case 6: // kill after the index entry is gone, before the file removal
 		target = f.bundle(nil)
 		q.doPush(target)
-		q.doUpdate(f, true, q.randExp()+7200000, q.randProps())
+		q.doUpdate(f, true, q.futureExp(), q.randProps())
 		q.crashOp("delete:before-remove", 1, "delete", target)
 	case 7: // kill after the only file was removed
 		target = f.bundle(nil)
@@ -768,7 +771,7 @@ func (q *c08Seq) crashScenario(variant int) {
 		q.doReopen()
 	}
 	q.doPush(f.bundle(followFrag))
-	q.doUpdate(f, q.r.intn(2) == 0, q.randExp()+7200000, q.randProps())
+	q.doUpdate(f, q.r.intn(2) == 0, q.futureExp(), q.randProps())
 	for _, fr := range grid {
 		q.doPush(f.bundle(fr))
 	}
@@ -821,7 +824,7 @@ func (q *c08Seq) concScenario(variant int) {
 			close(parked)
 			select {
 			case <-release:
-			case <-time.After(5 * time.Second):
+			case <-time.After(90 * time.Second):
 			}
 		}
 	})
@@ -845,14 +848,14 @@ func (q *c08Seq) concScenario(variant int) {
 	select {
 	case <-parked:
 		wasParked = "1"
-	case <-time.After(5 * time.Second):
+	case <-time.After(60 * time.Second):
 	}
 	done2 := make(chan struct{})
 	wg.Add(1)
 	go run(1-first, done2)
 	select {
 	case <-done2:
-	case <-time.After(250 * time.Millisecond):
+	case <-time.After(400 * time.Millisecond):
 		blocked = "1"
 	}
 	close(release)
